@@ -21,7 +21,7 @@ EXPLANATION = (
     "node derived from self's operands (the transitive dependency closure) on the same guard as dependencies() exposes "
     "it; (no missing layer) R04.5 every expression class resolves a concrete _layer, a lowering, or a lower_once; R04.9 no _layer hands back "
     "another node's layer; R04.10 the nested key grid of an expression is defined once (ArrayExpr.__dask_keys__ from _cached_keys) and not "
-    "overridden by any expression class except the reviewed single-key finalizer. "
+    "overridden by any expression class except the reviewed single-key finalizer; R04.11 a hand-merged sub-collection graph and the keys referenced come from the same binding of the collection. "
     "Acyclicity and the key arithmetic inside individual _layer bodies are not decided."
 )
 ASSUMPTIONS = [
@@ -420,7 +420,215 @@ def r04_10(ctx):
     return rr
 
 
-RULES = [r04_1, r04_2, r04_3, r04_4, r04_5, r04_6, r04_7, r04_8, r04_9, r04_10]
+_MERGE_EXAMPLE = """
+def build(dsk, items):
+    for idx in items:
+        dsk.update(dict(idx.__dask_graph__()))
+        idx = gather(idx)
+        dsk[1] = TaskRef(next(flatten(idx.__dask_keys__())))
+"""
+
+
+def _merge_version_mismatches(func_node):
+    """In a function that merges sub-collections' graphs by hand (``X.__dask_graph__()`` on a local X): every
+    ``X.__dask_keys__()`` must read the SAME binding of X as some ``X.__dask_graph__()`` - keys taken from one version of
+    the collection and the graph from another leave the referenced keys undefined.  Returns (checked, [(call, name)])."""
+    from ..cfg import CFG, stmt_of
+    from .common import nearest_def
+
+    graph_calls, key_calls = {}, []
+    for n in ast.walk(func_node):
+        if isinstance(n, ast.Call) and isinstance(n.func, ast.Attribute) and isinstance(n.func.value, ast.Name) and n.func.value.id not in ("self", "cls"):
+            if n.func.attr == "__dask_graph__":
+                graph_calls.setdefault(n.func.value.id, []).append(n)
+            elif n.func.attr == "__dask_keys__":
+                key_calls.append(n)
+    if not graph_calls:
+        return 0, []
+    cfg = CFG(func_node)
+    bad, checked = [], 0
+    for k in key_calls:
+        name = k.func.value.id
+        if name not in graph_calls:
+            continue  # keys of something whose graph arrives another way (a dependency): R04.4's business
+        checked += 1
+        ks = stmt_of(cfg, k)
+        kd = nearest_def(cfg, ks, name) if ks is not None else None
+        versions = []
+        for g in graph_calls[name]:
+            gs = stmt_of(cfg, g)
+            versions.append(nearest_def(cfg, gs, name) if gs is not None else None)
+        if not any(v is kd for v in versions):
+            bad.append((k, name))
+    return checked, bad
+
+
+def r04_11(ctx):
+    rr = RuleResult(
+        "R04.11", "COVER",
+        "a function that merges sub-collections' graphs into a hand-built graph (dsk.update(dict(X.__dask_graph__()))) takes X.__dask_keys__() from the same binding of X "
+        "whose graph it merged: keys of the gathered/rewritten collection with the graph of the original leave the task's references undefined",
+        min_instances=2,
+    )
+    probe = ast.parse(_MERGE_EXAMPLE).body[0]
+    checked, bad = _merge_version_mismatches(probe)
+    rr.inst("positive-example", checked=checked, matched=len(bad))
+    if checked != 1 or len(bad) != 1:
+        from ..model import AnalysisError
+
+        raise AnalysisError("R04.11 matcher no longer recognises its own positive example")
+    total = 0
+    for f in ctx.repo.all_functions():
+        if "/tests/" in f.module.relpath or f.parent is not None:
+            continue
+        checked, bad = _merge_version_mismatches(f.node)
+        if not checked:
+            continue
+        total += checked
+        rr.inst(site(f), keys_reads_checked=checked)
+        for k, name in bad:
+            ctx.finding(
+                rr, f"{f.construct}::{name}.__dask_keys__()",
+                f"{f.qualname} references keys of {name} as bound at this point, but the graph it merged is that of another binding of {name} (the collection was rebound in between, "
+                f"e.g. gathered into one block after its graph had been merged): the keys the task refers to are never defined - x[dask_index] = v with a multi-block index raised 'Missing dependency'",
+                func=f, node=k,
+            )
+    need(total >= 2, "hand-merged sub-collection graphs (setitem_array_expr)")
+    return rr
+
+
+# classes whose layer reads the blocks of several operands but which are put on one grid before the layer runs
+PAIRING_ALIGNED_AT_LOWERING = {
+    "Elemwise": "Elemwise._lower unifies the inputs together with where/out (unify_chunks_expr) before _layer pairs their blocks; the raw walk is guarded by R05.9",
+}
+
+
+def _block_source_operands(repo, c):
+    """Parameters P of ``c`` such that ``self.P`` flows into a TaskRef(...) key of the class's OWN _layer/_task -
+    directly (``TaskRef((self.P._name, i))``) or through local names (``keys = list(_flatten_keys(self.P))``,
+    ``for i, (k, w) in enumerate(zip(keys, wkeys))``)."""
+    from ..dataflow import Defs
+    from ..namedeps import params_of
+
+    try:
+        params = set(params_of(repo, c))
+    except Exception:  # noqa: BLE001
+        return set()
+    # array operands: parameters the class treats as arrays (self.P._name / .chunks / .numblocks / ..., _flatten_keys(self.P))
+    arrays = set()
+    for g in c.methods.values():
+        for m in full_walk(g.node):
+            if isinstance(m, ast.Attribute) and m.attr in ("_name", "name", "chunks", "numblocks", "__dask_keys__", "_meta", "ndim", "shape", "npartitions") and isinstance(m.value, ast.Attribute) and isinstance(m.value.value, ast.Name) and m.value.value.id == "self" and m.value.attr in params:
+                arrays.add(m.value.attr)
+            elif isinstance(m, ast.Call) and (dotted(m.func) or "").endswith("_flatten_keys") and m.args and isinstance(m.args[0], ast.Attribute) and isinstance(m.args[0].value, ast.Name) and m.args[0].value.id == "self" and m.args[0].attr in params:
+                arrays.add(m.args[0].attr)
+    params = params & arrays
+    found = set()
+    for mname in ("_layer", "_task"):
+        f = c.methods.get(mname)
+        if f is None:
+            continue
+        defs = Defs(f.node)
+        # loop / comprehension targets derive from their iterables
+        iters = {}
+        for n in ast.walk(f.node):
+            if isinstance(n, (ast.For, ast.comprehension)):
+                for t in ast.walk(n.target):
+                    if isinstance(t, ast.Name):
+                        iters.setdefault(t.id, []).append(n.iter)
+        seen, work = set(), []
+        for n in full_walk(f.node):
+            if isinstance(n, ast.Call) and (dotted(n.func) or "").rsplit(".", 1)[-1] == "TaskRef" and n.args:
+                work.append(n.args[0])
+        while work:
+            e = work.pop()
+            for m in ast.walk(e):
+                if isinstance(m, ast.Attribute) and isinstance(m.value, ast.Name) and m.value.id == "self" and m.attr in params:
+                    found.add(m.attr)
+                elif isinstance(m, ast.Name) and m.id not in seen and m.id != "self":
+                    seen.add(m.id)
+                    work.extend(v for v in defs.defs.get(m.id, []) if v is not None)
+                    work.extend(iters.get(m.id, []))
+    return found
+
+
+GRID_LITERAL_REVIEWED = {
+    "ChunksOverride": "a layout barrier: it exists to re-label its input's blocks one-to-one under user-supplied sizes; R03.3 checks that it aliases same-coordinate keys over exactly that grid and _materialize bridges what is below it",
+    "ReshapeLowered": "built by Reshape._lower over an input it has just rechunked to the grid its block mapping needs (the Rechunk's target is fixed by its operand)",
+    "Rechunk": "the literal is the node's own target layout; its layer is planned from the input's current chunks",
+    "TasksRechunk": "as Rechunk: planned from the input's current chunks to the literal target",
+}
+
+
+def _advertised_grid_literal(repo, c):
+    """Name of a layout-literal parameter that the class's own ``chunks`` property hands out verbatim (``return
+    self._chunks``): the node advertises - and its layer enumerates - a grid that is an operand VALUE, while the blocks
+    it reads belong to an array operand whose grid a rewrite may change."""
+    from ..namedeps import params_of
+
+    try:
+        params = list(params_of(repo, c))
+    except Exception:  # noqa: BLE001
+        return None
+    f = c.methods.get("chunks")
+    if f is None or "_layer" not in c.methods:
+        return None
+    rets = [r.value for r in body_walk(f.node) if isinstance(r, ast.Return) and r.value is not None]
+    if len(rets) != 1:
+        return None
+    t = unparse(rets[0])
+    for p_ in params:
+        if "chunks" in p_ and t in (f"self.{p_}", f"self.operand('{p_}')", f'self.operand("{p_}")'):
+            return p_
+    return None
+
+
+def r04_12(ctx):
+    rr = RuleResult(
+        "R04.12", "COVER",
+        "a node whose own layer reads the blocks of SEVERAL operands (pairs them by position: x with its weights, a histogram with its bins) declares that it observes its inputs' "
+        "block grid (_requires_grid_preservation), unless its operands are unified at lowering: otherwise a rewrite below may move ONE operand to another grid "
+        "(the sliding-window fusion, a pushed rechunk) and the layer refers to blocks that do not exist",
+        min_instances=3,
+    )
+    repo = ctx.repo
+    n = 0
+    for c in repo.expr_classes():
+        if not c.module.is_unit:
+            continue
+        n += 1
+        ops = _block_source_operands(repo, c)
+        literal = _advertised_grid_literal(repo, c) if len(ops) == 1 else None
+        if len(ops) < 2 and not literal:
+            continue
+        if literal:
+            ops = ops | {literal}
+        cst = f"{c.construct}::block sources {', '.join(sorted(ops))}"
+        hit = repo.class_attr(c, "_requires_grid_preservation")
+        declared = None
+        if hit is not None and isinstance(hit[1], FuncInfo):
+            rets = [unparse(r.value) for r in body_walk(hit[1].node) if isinstance(r, ast.Return) and r.value is not None]
+            declared = (hit[0].name, rets)
+        rr.inst(cst, declared_by=declared[0] if declared else None, returns=declared[1] if declared else None)
+        if declared and declared[1] == ["True"]:
+            continue
+        if c.name in PAIRING_ALIGNED_AT_LOWERING:
+            rr.exempt(cst, PAIRING_ALIGNED_AT_LOWERING[c.name])
+            continue
+        if literal and c.name in GRID_LITERAL_REVIEWED:
+            rr.exempt(cst, GRID_LITERAL_REVIEWED[c.name])
+            continue
+        ctx.finding(
+            rr, cst,
+            f"{c.name}._layer pairs the blocks of {', '.join(sorted(ops))} by position but the class does not declare _requires_grid_preservation: with s a sliding-window reduction "
+            f"(advertised chunks (16, 13), native (8, 8, 8, 5)), da.bincount(s, weights=w) / da.histogram(s, weights=w) raised 'Missing dependency' - the fusion moved s to its native grid under the node, the weights stayed",
+            file=c.module.path, line=c.node.lineno,
+        )
+    need(n >= 100, "expression classes")
+    return rr
+
+
+RULES = [r04_1, r04_2, r04_3, r04_4, r04_5, r04_6, r04_7, r04_8, r04_9, r04_10, r04_11, r04_12]
 
 from .upstream import upstream_facts  # noqa: E402
 
